@@ -1,11 +1,5 @@
 package main
 
-import (
-	"strings"
-
-	"golang.org/x/tools/go/ssa"
-)
-
 func init() {
 	Register(&Property{
 		ID: "C13",
@@ -48,24 +42,7 @@ func runC13(c *Ctx) {
 		}
 	}
 	// R13.3
-	c.Rule("R13.3", "MustPass")
-	if fn := c.Need("isaac.(*SuffrageStateBuilder).prove"); fn != nil {
-		succ := c.SuccessReturns(fn)
-		idx := "((proof.SuffrageHeight() - φ(-2|base.LoadSuffrageNodesStateValue(previous)#0.Height())) - 1)"
-		_ = idx
-		pr := c.CallsD(fn, "proof.Prove(previous)")
-		c.Exists(fn, "first proof proved against the local previous state", pr, 1)
-		c.MP(fn, "success: first proof proved against the local previous state", succ, 1,
-			GOk("proof.Prove(previous)"), GCmp("*.Int64()", "!=", "0"))
-		prevN := c.CallsD(fn, "proof.Prove(proofs[*].State())")
-		c.Exists(fn, "proof proved against its stored predecessor", prevN, 1)
-		nextN := c.CallsD(fn, "proofs[*].Prove(proof.State())")
-		c.Exists(fn, "stored successor proved against the proof", nextN, 1)
-		for _, in := range append(prevN, nextN...) {
-			d := c.dCall(callCommon(in), 0, map[ssa.Value]bool{})
-			c.Report(fn, "neighbour proofs are adjacent slots", c.InstrPos(in), strings.Contains(d, " - 1)]") || strings.Contains(d, " + 1)]"), d)
-		}
-	}
+	builderProveRules(c, "R13.3b", "R13.3")
 	if fn := c.Need("isaac.(*SuffrageStateBuilder).Build"); fn != nil {
 		c.Rule("R13.3", "MustPass")
 		// the last proof is validated before anything is built on it
